@@ -143,6 +143,21 @@ theorem C10_gen_circuit_values (comps : List (String × String × (String → K)
 theorem C10_gen_container (a b c d : Nat × Nat) : container_post_init a b c d = containerCheck a b c d :=
   gen_container a b c d
 
+/-- **the index maps are forwarded** (fix 4559c7d): inside the state-space builder every callee that takes an index
+map of the class of one of the builder's own mapper parameters receives that parameter — `source_incidence_matrix` the
+node and current-source maps, `nodal_analysis_coefficient_matrix` the node and voltage-source maps,
+`state_space_matrices` (from `nodal_state_space_model`) all three.  The definitions above are stated for the default
+maps; the translator refuses a call that leaves such a keyword out, and this table is what it found. -/
+theorem C10_gen_mappers_forwarded :
+    mapper_forwarding =
+      [("source_incidence_matrix", "node_mapper", "node_mapper"),
+       ("source_incidence_matrix", "source_mapper", "current_source_mapper"),
+       ("nodal_analysis_coefficient_matrix", "node_mapper", "node_mapper"),
+       ("nodal_analysis_coefficient_matrix", "source_mapper", "voltage_source_mapper"),
+       ("state_space_matrices", "current_source_mapper", "current_source_index_mapper"),
+       ("state_space_matrices", "node_mapper", "node_index_mapper"),
+       ("state_space_matrices", "voltage_source_mapper", "voltage_source_index_mapper")] := rfl
+
 /-! ### the hypotheses are satisfiable -/
 
 example : ∀ M : Py.Mat ℚ, ((fun M => M) M).nrows = M.nrows ∧ ((fun M => M) M).ncols = M.ncols := fun _ => ⟨rfl, rfl⟩
